@@ -17,6 +17,7 @@ VERUS = os.environ.get('VERUS_BIN', 'verus')
 # verifier verdicts that are statements about the program (anything else is a tool failure => undecided)
 SEMANTIC = [
     ('postcondition not satisfied', 'postcondition'),
+    ('unable to prove post-condition of closure', 'closure-postcondition'),
     ('precondition not satisfied', 'precondition'),
     ('assertion failed', 'assertion'),
     ('invariant not satisfied', 'invariant'),
@@ -90,9 +91,13 @@ def parse_run(meta, rc, stdout, stderr):
         line = prim[0]['line_start'] if prim else None
         # the *function* in which the obligation failed: any span of ours locates it
         region = None
-        for s in (prim + ours):
+        clause_labels = ('failed this postcondition', 'failed precondition', 'failed this invariant')
+        site_spans = [s for s in ours if (s.get('label') or '') not in clause_labels]
+        # the obligation belongs to the function whose body/call-site failed, not to where the clause is written
+        for s in (site_spans + prim + ours):
             region = region_of(meta, s['line_start'])
             if region and region['kind'] != 'scaffold':
+                line = s['line_start']
                 break
         clause = None
         labelled = {}
